@@ -67,7 +67,13 @@ def resolve_xsi(tree_scoped, scope=None):
             v = f"{{{u}}}{l}" if u else l
         a[k] = v
     out = []
+    qname_typed = a.get(f"{{{I.XSI}}}type") == f"{{{I.XS}}}QName"
     for c in kids:
+        if isinstance(c, str) and qname_typed:
+            # the content of an element typed xs:QName is a QName too: compared by expanded name
+            p, sep, l = c.strip().rpartition(":")
+            u = scope.get(p or None)
+            c = (f"{{{u}}}{l}" if u else l) if (sep or u) else c.strip()
         out.append(c if isinstance(c, str) else resolve_xsi(c, scope))
     return (q, tuple(sorted(a.items())), tuple(x for x in out if x != ""))
 
@@ -231,8 +237,8 @@ def feat(root: I.El) -> str:
 XS_INTS = {f"{{{I.XS}}}{n}" for n in ("int", "short", "long", "integer", "byte")}
 
 
-def first_diff(a, b):
-    """(kind, detail) of the first infoset difference: ('attr', key, va, vb) | ('other',)."""
+def first_diff(a, b, depth=0):
+    """(kind, detail) of the first infoset difference: ('attr', key, va, vb) | ('text', attrs, ta, tb, rest equal, depth) | ('other',)."""
     if a[0] != b[0]:
         return ("other",)
     if a[1] != b[1]:
@@ -247,15 +253,24 @@ def first_diff(a, b):
     for x, y in zip(a[2], b[2]):
         if isinstance(x, str) or isinstance(y, str):
             if x != y:
-                return ("other",)
+                rest = tuple(k for k in a[2] if k is not x) == tuple(k for k in b[2] if k is not y)
+                return ("text", dict(a[1]), x, y, rest, depth) if isinstance(x, str) and isinstance(y, str) else ("other",)
         elif x != y:
-            return first_diff(x, y)
+            return first_diff(x, y, depth + 1)
     return ("none",)
 
 
 def known(a, b) -> str | None:
     """Analysed defects, recognised by a predicate over input AND output (anything else falls through)."""
     d = first_diff(a, b)
+    if d[0] == "text":
+        _, attrs, ta, tb, rest, depth = d
+        # generic (AnyElement) content keeps text as it is written and forgets prefix declarations that only values use: an element
+        # typed xs:QName below the captured element comes back with its prefix unbound
+        # (depth: 0 = the holder, 1 = the element the wildcard captures, which is bound as a typed value and keeps its namespace)
+        if depth >= 2 and attrs.get(f"{{{I.XSI}}}type") == f"{{{I.XS}}}QName" and ta.startswith("{urn:qv}") and tb == ta.split("}", 1)[1] and rest:
+            return "KF/qname-typed-text-in-generic-content-loses-its-prefix-declaration"
+        return None
     if d[0] != "attr":
         return None
     _, k, va, vb = d[:4]
